@@ -96,6 +96,17 @@ func (w *World) Close() {
 	}
 }
 
+// NewFakeAt creates a replica on the given loopback address (nil if it cannot be bound).
+func (w *World) NewFakeAt(ip string, rev int64) *Fake {
+	f := newFake(w, ip, w.Size, rev)
+	if err := f.startHTTP(); err != nil {
+		return nil
+	}
+	w.Fakes[f.Addr] = f
+	w.Order = append(w.Order, f)
+	return f
+}
+
 // NewFake creates a replica on a fresh loopback address.
 func (w *World) NewFake(rev int64) *Fake {
 	for try := 0; try < 2000; try++ {
